@@ -322,7 +322,7 @@ def run(tier, seed):
     for name in ["T23", "ParamsEd25519"] + ([] if quick else ["Params1024", "E37"]):
         for side in "ABS":
             tasks.append(("big", (name, side)))
-    tasks.sort(key=lambda t: -{"sessions": 1, "orders": 3, "shipped": 50, "mixed": 40, "big": 10}[t[0]] * T.get(t[1][0]).ref.esize)
+    tasks.sort(key=lambda t: -{"sessions": 1, "orders": 3, "shipped": 50, "mixed": 40, "big": 10}[t[0]] * T.hint(t[1][0]).ref.esize)
     core.pmerge(_dispatch, tasks, acc)
     _golden(acc)
     return acc
